@@ -12,7 +12,10 @@ of the three loops (`res_get`) · the gate theorems (`reject_blocks_body*`, `fir
 `required_*`, `nonrequired_none_passes_unvalidated`, `default_cascade`, `missing_without_default_blocks`) ·
 `res_only_chain_outputs` / `body_sees_only_chain_outputs` · dict and call-binding lemmas about the generated dispatch
 (`dispatch_unfold`, `callWith_split_eq`, `dispatch_eq_bindDict`; shared with `Props/C13.lean`, which imports this file) ·
-`gate_by_name_partial` with its negation witness `gate_by_name_full_fails` · non-vacuity examples · the VAR_POSITIONAL parameter
+`gate_by_name_partial` with its negation witness `gate_by_name_full_fails` · which parameter a rejection names
+(`chainHandlerName_self` about the generated `from_validator_exception` rule, `rejection_names_the_rejecting_parameter`,
+`validate_independent_of_carried_names`, `validateParam_eq_relabel`, `call_rejection_names_the_rejecting_parameter`,
+`rejection_naming_partial` / `rejection_naming_full_fails`) · non-vacuity examples · the VAR_POSITIONAL parameter
 under any name (`zip_branch_iff_var_positional`, `ordinary_key_never_zips`, `no_zip_without_var_positional`,
 `var_positional_spelling_irrelevant`, `body_sees_only_chain_outputs_full_proved`) · re-entrant and
 overlapping calls (`runValidateW_fst`, `call_outcome_independent_of_other_calls`, `gate_holds_for_outer_call`,
@@ -59,6 +62,14 @@ theorem isRequired_eq (p : VParam) : p.isRequired = p.specRequired := by
   unfold VParam.isRequired VParam.specRequired isRequiredRule
   cases p.dflt <;> cases p.requiredArg <;> rfl
 
+/-- **C12 (naming, the generated rule).** `ParameterException.from_validator_exception` as `Parameter.validate` calls it: for a
+    non-empty `self.name` the exception names `self.name` — **whatever** `parameter_name` the `ValidatorException` already
+    carries (the empty default, a nested field name set by `Validator.validate_param`, the name of another Parameter).
+    Proved about the generated `chainHandlerName` / `fromValidatorExceptionName` / `parameterExceptionStoresName`. -/
+theorem chainHandlerName_self (name carried : Name) (h : (name != emptyName) = true) : chainHandlerName name carried = name := by
+  have h' : (name != PedVerif.Gen.Validate.emptyName) = true := h
+  simp [chainHandlerName, fromValidatorExceptionName, parameterExceptionStoresName, strOr, strTruthy, h']
+
 theorem runValidators_eq_fold (p : VParam) (off : Nat) (hoff : ∀ j, p.whyAt (j + off) = .validator j) :
     ∀ (fs : List Step) (j : Nat) (v : PV),
       runValidators p.name fs j v = (fs.zipIdx (j + off)).foldlM (specStep p) v := by
@@ -74,7 +85,7 @@ theorem runValidators_eq_fold (p : VParam) (off : Nat) (hoff : ∀ j, p.whyAt (j
       rw [ih (j + 1) w]
       have : j + 1 + off = j + off + 1 := by omega
       rw [this]
-    | error r => cases r <;> simp [bind, Except.bind]
+    | error r => cases r <;> simp [bind, Except.bind, chainHandlerName_self _ _ p.nameNonEmpty]
 
 /-- **C12 (chain).** `Parameter.validate` is: the None rule, then the *full* chain — conversion (if a `value_type` is
     given) followed by every validator — as a left fold in order, each step receiving its predecessor's output; the first
@@ -97,7 +108,7 @@ theorem validate_is_chain_fold (p : VParam) (v : PV) : p.validate v = specValida
       | ok w => simp only [bind, Except.bind]; simpa using h p.validators 0 w
       | error r => cases r <;> simp [bind, Except.bind]
 
-example : (⟨2, true, none, none, none, [fun v => .ok v, fun _ => .error .rejected, fun v => .ok v], false⟩ : VParam).validate (.obj 9)
+example : (⟨2, true, none, none, none, [fun v => .ok v, fun _ => .error (.rejected emptyName), fun v => .ok v], false, by decide⟩ : VParam).validate (.obj 9)
     = .error (.parameter 2 (.validator 1)) := by rfl
 
 /-! ## The loops in source order -/
@@ -984,7 +995,7 @@ theorem run_error_of_content_error (c : Cfg) (a : Bool) (m : Mode) (args : List 
     (h : wrapperContent c args kw = .error e) : runValidate c a m args kw = .error e := by
   simp [runValidate, h, bind, Except.bind]
 
-theorem runValidators_error_names (name : Name) : ∀ (fs : List Step) (j : Nat) (v : PV) (e : VExc),
+theorem runValidators_error_names (name : Name) (hne : (name != emptyName) = true) : ∀ (fs : List Step) (j : Nat) (v : PV) (e : VExc),
     runValidators name fs j v = .error e → (∃ w, e = .parameter name w) ∨ (∃ i, e = .foreign i) := by
   intro fs
   induction fs with
@@ -997,7 +1008,8 @@ theorem runValidators_error_names (name : Name) : ∀ (fs : List Step) (j : Nat)
     | error r =>
       rw [hf] at h
       cases r with
-      | rejected => simp only [Except.error.injEq] at h; exact Or.inl ⟨_, h.symm⟩
+      | rejected carried =>
+        simp only [Except.error.injEq, chainHandlerName_self _ _ hne] at h; exact Or.inl ⟨_, h.symm⟩
       | crash i => simp only [Except.error.injEq] at h; exact Or.inr ⟨_, h.symm⟩
 
 /-- whatever `Parameter.validate` raises is a `ParameterException` carrying the parameter's name — or the foreign
@@ -1014,16 +1026,16 @@ theorem validate_error_names (p : VParam) (v : PV) (e : VExc) (h : p.validate v 
   | obj i =>
     simp only at h
     cases hc : p.conv with
-    | none => rw [hc] at h; exact runValidators_error_names _ _ _ _ _ h
+    | none => rw [hc] at h; exact runValidators_error_names _ p.nameNonEmpty _ _ _ _ h
     | some cv =>
       rw [hc] at h
       simp only at h
       cases hcv : cv (.obj i) with
-      | ok w => rw [hcv] at h; exact runValidators_error_names _ _ _ _ _ h
+      | ok w => rw [hcv] at h; exact runValidators_error_names _ p.nameNonEmpty _ _ _ _ h
       | error r =>
         rw [hcv] at h
         cases r with
-        | rejected => simp only [Except.error.injEq] at h; exact Or.inl ⟨_, h.symm⟩
+        | rejected carried => simp only [Except.error.injEq] at h; exact Or.inl ⟨_, h.symm⟩
         | crash i => simp only [Except.error.injEq] at h; exact Or.inr ⟨_, h.symm⟩
 
 /-- a keyword item that stops the first loop: its Parameter rejects the value, or (strict) there is no Parameter -/
@@ -2738,7 +2750,7 @@ theorem gate_by_name_partial (c : Cfg) (a : Bool) (m : Mode) (args : List PV) (k
 /-- `@validate(Parameter('a', required=False, validators=[<rejects everything>]), strict=False,
     return_as=ReturnAs.KWARGS_WITHOUT_NONE)  def f(a=<obj 100>)` — a *plain function* -/
 def exSelfEdge : Cfg :=
-  { ps := [⟨2, false, none, none, none, [fun _ => .error .rejected], false⟩],
+  { ps := [⟨2, false, none, none, none, [fun _ => .error (.rejected emptyName)], false, by decide⟩],
     sig := { pos := [⟨2, some (.obj 100)⟩], varArgs := false, kwOnly := [] }, strict := false, ignoreInput := false, req := .noContext }
 
 /-- the call `f(None, self=<obj 101>)`: None passes for the non-required `a` and is dropped by KWARGS_WITHOUT_NONE; the
@@ -2777,13 +2789,288 @@ theorem validate_source_shape :
 /-- a validator `v ↦ 8·v + k` that rejects the values in `rej` -/
 def exV (k : Nat) (rej : List Nat) : Step := fun v =>
   match v with
-  | .obj i => if rej.contains i then .error .rejected else .ok (.obj (i * 8 + k))
+  | .obj i => if rej.contains i then .error (.rejected emptyName) else .ok (.obj (i * 8 + k))
   | .none => .ok .none
+
+/-! ## Which parameter a rejection names
+
+The statement: "if any step rejects, a ParameterException **carrying the parameter name** is raised" — the name of the
+Parameter whose chain rejected, also when the rejecting validator raises a `ValidatorException` that already carries a
+`parameter_name` (set by itself, or by `Validator.validate_param(value, parameter_name=…)` of a composite validator that
+delegates to other validators — a nested field name, possibly the name of *another* Parameter of the same function). -/
+
+/-- **C12 (naming).** Whatever a Parameter's `validate` raises as `ParameterException` names **that** Parameter — for
+    arbitrary conversion and validator steps, whatever names their own exceptions carry. -/
+theorem rejection_names_the_rejecting_parameter (p : VParam) (v : PV) (n : Name) (w : Why)
+    (h : p.validate v = .error (.parameter n w)) : n = p.name := by
+  rcases validate_error_names p v _ h with ⟨w', hw⟩ | ⟨i, hi⟩
+  · cases hw; rfl
+  · cases hi
+
+/-- a step whose `ValidatorException`s carry other names: `g` applied to the carried name -/
+def relabel (g : Name → Name) (f : Step) : Step := fun v =>
+  match f v with
+  | .error (.rejected c) => .error (.rejected (g c))
+  | r => r
+
+/-- `Validator.validate_param(value, parameter_name)` is such a relabelling — whatever its (generated) labelling rule
+    `validateParamName` is; accepted values and foreign exceptions pass unchanged -/
+theorem validateParam_eq_relabel (f : Step) (pn : Name) : validateParam f pn = relabel (validateParamName pn) f := rfl
+
+theorem runValidators_relabel (g : Name → Name) (name : Name) (hne : (name != emptyName) = true) :
+    ∀ (fs : List Step) (j : Nat) (v : PV), runValidators name (fs.map (relabel g)) j v = runValidators name fs j v := by
+  intro fs
+  induction fs with
+  | nil => intro j v; rfl
+  | cons f fs ih =>
+    intro j v
+    simp only [List.map_cons, runValidators, relabel]
+    cases hf : f v with
+    | ok w => simp only; exact ih _ _
+    | error r => cases r <;> simp [chainHandlerName_self _ _ hne]
+
+/-- **C12 (naming, strong form).** The outcome of `Parameter.validate` — value, exception class, *name* and failing step —
+    does not depend on the names the validators' own exceptions carry: relabel them in any way (wrap any validator in
+    `validate_param` with any name, nest such delegations to any depth) and nothing changes. -/
+theorem validate_independent_of_carried_names (g : Name → Name) (p : VParam) (v : PV) :
+    ({ p with validators := p.validators.map (relabel g) } : VParam).validate v = p.validate v := by
+  unfold VParam.validate
+  cases v with
+  | none => rfl
+  | obj i =>
+    simp only
+    cases hc : p.conv with
+    | none => simp only; exact runValidators_relabel g _ p.nameNonEmpty _ _ _
+    | some cv =>
+      simp only
+      cases cv (.obj i) with
+      | ok w => simp only; exact runValidators_relabel g _ p.nameNonEmpty _ _ _
+      | error r => cases r <;> rfl
+
+/-- what a `ParameterException(n, w)` raised by a call says: `n` is a declared Parameter that rejected a value itself
+    (`p.validate v` raises exactly this exception) or that is required and has no value -/
+def NamedBy (ps : List VParam) (e : VExc) : Prop :=
+  ∀ n w, e = .parameter n w → ∃ p ∈ ps, p.name = n ∧ ((∃ v, p.validate v = .error e) ∨ (w = .required ∧ p.isRequired = true ∧ p.ext = none))
+
+theorem namedBy_of_validate (ps : List VParam) (p : VParam) (hp : p ∈ ps) (v : PV) (e : VExc) (h : p.validate v = .error e) :
+    NamedBy ps e := by
+  intro n w he
+  subst he
+  exact ⟨p, hp, (rejection_names_the_rejecting_parameter p v n w h).symm, Or.inl ⟨v, h⟩⟩
+
+theorem loopKw_error_named (ps : List VParam) (strict : Bool) :
+    ∀ (kw : List (Name × PV)) (res : Assoc) (used : List Name) (e : VExc), loopKw ps strict kw res used = .error e → NamedBy ps e := by
+  intro kw
+  induction kw with
+  | nil => intro res used e h; simp [loopKw] at h
+  | cons hd tl ih =>
+    intro res used e h
+    obtain ⟨k, v⟩ := hd
+    simp only [loopKw] at h
+    cases hf : findP ps k with
+    | none =>
+      rw [hf] at h
+      simp only at h
+      split at h
+      · cases h; intro n w he; cases he
+      · exact ih _ _ _ h
+    | some q =>
+      rw [hf] at h
+      simp only at h
+      cases hv : q.validate v with
+      | error e' =>
+        simp only [hv, bind, Except.bind, Except.error.injEq] at h; subst h
+        exact namedBy_of_validate ps q (findP_mem _ _ _ hf) v _ hv
+      | ok v' => simp only [hv, bind, Except.bind] at h; exact ih _ _ _ h
+
+theorem loopPos_error_named (ps : List VParam) (strict : Bool) :
+    ∀ (bd : List (Name × PV)) (res : Assoc) (used : List Name) (ua : List PV) (e : VExc),
+      loopPos ps strict bd res used ua = .error e → NamedBy ps e := by
+  intro bd
+  induction bd with
+  | nil => intro res used ua e h; simp [loopPos] at h
+  | cons hd tl ih =>
+    intro res used ua e h
+    obtain ⟨k, v⟩ := hd
+    simp only [loopPos] at h
+    cases hf : findP ps k with
+    | none =>
+      rw [hf] at h
+      simp only at h
+      split at h
+      · cases h; intro n w he; cases he
+      · exact ih _ _ _ _ h
+    | some q =>
+      rw [hf] at h
+      simp only at h
+      cases hv : q.validate v with
+      | error e' =>
+        simp only [hv, bind, Except.bind, Except.error.injEq] at h; subst h
+        exact namedBy_of_validate ps q (findP_mem _ _ _ hf) v _ hv
+      | ok v' => simp only [hv, bind, Except.bind] at h; exact ih _ _ _ _ h
+
+theorem loopZip_error_named (ps : List VParam) :
+    ∀ (pairs : List (PV × VParam)) (res : Assoc) (used : List Name) (e : VExc), (∀ ap ∈ pairs, ap.2 ∈ ps) →
+      loopZip pairs res used = .error e → NamedBy ps e := by
+  intro pairs
+  induction pairs with
+  | nil => intro res used e _ h; simp [loopZip] at h
+  | cons hd tl ih =>
+    intro res used e hps h
+    obtain ⟨a, p⟩ := hd
+    simp only [loopZip] at h
+    cases hv : p.validate a with
+    | error e' =>
+      simp only [hv, bind, Except.bind, Except.error.injEq] at h; subst h
+      exact namedBy_of_validate ps p (hps (a, p) (by simp)) a _ hv
+    | ok v' =>
+      simp only [hv, bind, Except.bind] at h
+      exact ih _ _ _ (fun ap hap => hps ap (List.mem_cons_of_mem _ hap)) h
+
+theorem loopUnused_error_named (ps : List VParam) (sig : Sig) :
+    ∀ (l : List VParam) (res : Assoc) (e : VExc), (∀ p ∈ l, p ∈ ps) → loopUnused sig l res = .error e → NamedBy ps e := by
+  intro l
+  induction l with
+  | nil => intro res e _ h; simp [loopUnused] at h
+  | cons p tl ih =>
+    intro res e hps h
+    have htl : ∀ q ∈ tl, q ∈ ps := fun q hq => hps q (List.mem_cons_of_mem _ hq)
+    simp only [loopUnused] at h
+    cases he : p.ext with
+    | some v =>
+      rw [he] at h
+      simp only at h
+      cases hv : p.validate v with
+      | error e' =>
+        simp only [hv, bind, Except.bind, Except.error.injEq] at h; subst h
+        exact namedBy_of_validate ps p (hps p (by simp)) v _ hv
+      | ok v' => simp only [hv, bind, Except.bind] at h; exact ih _ _ htl h
+    | none =>
+      rw [he] at h
+      simp only at h
+      by_cases hr : p.isRequired = true
+      · simp only [hr, ↓reduceIte, Except.error.injEq] at h; subst h
+        intro n w hnw
+        simp only [VExc.parameter.injEq] at hnw
+        obtain ⟨rfl, rfl⟩ := hnw
+        exact ⟨p, hps p (by simp), rfl, Or.inr ⟨rfl, hr, he⟩⟩
+      · simp only [hr, Bool.false_eq_true, ↓reduceIte] at h
+        cases hd : p.dflt with
+        | some d => rw [hd] at h; exact ih _ _ htl h
+        | none =>
+          rw [hd] at h
+          simp only at h
+          cases hsd : sig.default? p.name with
+          | some d => rw [hsd] at h; exact ih _ _ htl h
+          | none => rw [hsd] at h; cases h; intro n w he'; cases he'
+
+theorem zipPairs_mem (ps : List VParam) (args : List PV) (used : List Name) (ua : List PV) :
+    ∀ ap ∈ zipPairs ps args used ua, ap.2 ∈ ps := by
+  intro ap hap
+  obtain ⟨a, p⟩ := ap
+  have := (List.of_mem_zip hap).2
+  exact (List.mem_filter.mp this).1
+
+/-- **C12 (naming, whole call, any signature — `*args` included).** When a call of the decorated function ends in a
+    `ParameterException`, the name it carries is the name of a *declared* Parameter which itself rejected a value it was given
+    (its own `validate` raises exactly this exception), or which is required and has no value — never a name that a validator's
+    exception brought along. -/
+theorem call_rejection_names_the_rejecting_parameter (c : Cfg) (a : Bool) (m : Mode) (args : List PV) (kw : List (Name × PV))
+    (n : Name) (w : Why) (h : wrapperContent c args kw = .error (.parameter n w)) :
+    runValidate c a m args kw = .error (.parameter n w) ∧
+    ∃ p ∈ c.ps, p.name = n ∧ ((∃ v, p.validate v = .error (.parameter n w)) ∨ (w = .required ∧ p.isRequired = true ∧ p.ext = none)) := by
+  refine ⟨run_error_of_content_error c a m args kw _ h, ?_⟩
+  suffices hs : NamedBy c.ps (.parameter n w) from hs n w rfl
+  rw [wrapperContent_eq_seq] at h
+  unfold wrapperSeq at h
+  have hflask : ∀ (res : Assoc) (e : VExc), flaskCheck c.ps c.strict c.req res = .error e → NamedBy c.ps e := by
+    intro res e hf n' w' he
+    subst he
+    unfold flaskCheck at hf
+    split at hf
+    · cases hr : c.req with
+      | noContext => rw [hr] at hf; cases hf
+      | notJson => rw [hr] at hf; cases hf
+      | json keys => rw [hr] at hf; simp only at hf; split at hf <;> cases hf
+    · cases hf
+  have hfilter : ∀ (f : VParam → Bool), ∀ p ∈ c.ps.filter f, p ∈ c.ps := fun f p hp => (List.mem_filter.mp hp).1
+  split at h
+  · cases hu : loopUnused c.sig (c.ps.filter (fun p => !([] : List Name).contains p.name)) [] with
+    | error e => rw [hu] at h; simp only [Except.bind, Except.error.injEq] at h; subst h; exact loopUnused_error_named _ _ _ _ _ (hfilter _) hu
+    | ok r => rw [hu] at h; exact hflask _ _ h
+  · cases h1 : loopKw c.ps c.strict kw [] [] with
+    | error e => rw [h1] at h; simp only [Except.bind, Except.error.injEq] at h; subst h; exact loopKw_error_named _ _ _ _ _ _ h1
+    | ok st1 =>
+      rw [h1] at h
+      simp only [Except.bind] at h
+      cases hb : bindPartial c.sig args with
+      | error e =>
+        rw [hb] at h; simp only [Except.error.injEq] at h
+        unfold bindPartial at hb
+        split at hb
+        · cases hb
+        · split at hb
+          · split at hb <;> cases hb
+          · cases hb; cases h
+      | ok b =>
+        rw [hb] at h
+        simp only at h
+        cases h2 : loopPos c.ps c.strict b.named st1.1 st1.2 [] with
+        | error e => rw [h2] at h; simp only [Except.error.injEq] at h; subst h; exact loopPos_error_named _ _ _ _ _ _ _ h2
+        | ok st2 =>
+          rw [h2] at h
+          simp only at h
+          cases h3 : (if b.extras.isEmpty then (.ok (st2.1, st2.2.1) : Except VExc (Assoc × List Name))
+              else loopZip (zipPairs c.ps args st2.2.1 st2.2.2) st2.1 st2.2.1) with
+          | error e =>
+            rw [h3] at h; simp only [Except.error.injEq] at h; subst h
+            split at h3
+            · cases h3
+            · exact loopZip_error_named _ _ _ _ _ (zipPairs_mem _ _ _ _) h3
+          | ok st3 =>
+            rw [h3] at h
+            simp only at h
+            cases hu : loopUnused c.sig (c.ps.filter (fun p => !st3.2.contains p.name)) st3.1 with
+            | error e => rw [hu] at h; simp only [Except.error.injEq] at h; subst h; exact loopUnused_error_named _ _ _ _ _ (hfilter _) hu
+            | ok r => rw [hu] at h; exact hflask _ _ h
+
+/-- the full statement of the naming rule, without the invariant "a Parameter's name is a non-empty string" … -/
+def rejection_naming_full : Prop := ∀ selfName carried : Name, chainHandlerName selfName carried = selfName
+/-- … proved under that guard (`chainHandlerName_self`) … -/
+theorem rejection_naming_partial (selfName carried : Name) (h : (selfName != emptyName) = true) :
+    chainHandlerName selfName carried = selfName := chainHandlerName_self selfName carried h
+/-- … and false without it: `parameter_name or exception.parameter_name` — a Parameter declared with the *empty* name
+    (`Parameter(name='')`, which names no parameter of any function) adopts the name the validator's exception carries -/
+theorem rejection_naming_full_fails : ¬ rejection_naming_full := by
+  intro h; exact absurd (h emptyName 2) (by decide)
+
+/-- the facts the translator reads about the naming of a rejection that the hand-written part of the model relies on:
+    `ParameterException.__init__` stores the `parameter_name` it is given, and the required / conversion path
+    (`Parameter.raise_exception`) names `self.name`.  (What `ValidatorException` stores and how `validate_param` labels is
+    generated too, and used by the correspondence check, but no theorem depends on it: the naming theorems hold for *every*
+    name a validator's exception may carry.) -/
+theorem rejection_naming_source_shape :
+    (∀ n, parameterExceptionStoresName n = n) ∧ (∀ n, raiseExceptionName n = n) := ⟨fun _ => rfl, fun _ => rfl⟩
+
+/-- `@validate(Parameter('a', [NotEmpty]), Parameter('b', [AddressValidator]), Parameter('c'))  def f(a, b, c)` where the validator
+    of `b` delegates through `validate_param(value, parameter_name='a')` to a validator that rejects 101 (names a = 2, b = 3,
+    c = 4): the nested field is called like the *other, valid* Parameter `a` -/
+def exDelegating : Cfg :=
+  { ps := [⟨2, true, none, none, none, [exV 1 []], false, by decide⟩,
+           ⟨3, true, none, none, none, [validateParam (validateParam (exV 2 [101]) 4) 2], false, by decide⟩,
+           ⟨4, true, none, none, none, [], false, by decide⟩],
+    sig := { pos := [⟨2, none⟩, ⟨3, none⟩, ⟨4, none⟩], varArgs := false, kwOnly := [] }, strict := true, ignoreInput := false, req := .noContext }
+-- the validator's own exception carries a foreign name (with the current `validate_param`: `a`, the outermost label) …
+example : ∃ c, validateParam (validateParam (exV 2 [101]) 4) 2 (.obj 101) = .error (.rejected c) := ⟨_, rfl⟩
+-- … and the ParameterException names `b` (3), the Parameter whose chain rejected; the body does not run
+example : runValidate exDelegating false .kwWithNone [.obj 100, .obj 101, .obj 102] [] = .error (.parameter 3 (.validator 0)) := by rfl
+example : ∃ p ∈ exDelegating.ps, p.name = 3 ∧ ∃ v, p.validate v = .error (.parameter 3 (.validator 0)) :=
+  ⟨_, List.mem_cons_of_mem _ (List.mem_cons_self ..), rfl, .obj 101, by rfl⟩
 
 /-- `@validate(Parameter('a', validators=[V1, V2, V3]), Parameter('b', required=False, default=<obj 70>))
     def f(a, b=<obj 50>)`; V2 rejects the output of V1 on 100 (names: a = 2, b = 3) -/
 def exGate (rej2 : List Nat) : Cfg :=
-  { ps := [⟨2, true, none, none, none, [exV 1 [], exV 2 rej2, exV 3 []], false⟩, ⟨3, false, some (.obj 70), none, none, [], false⟩],
+  { ps := [⟨2, true, none, none, none, [exV 1 [], exV 2 rej2, exV 3 []], false, by decide⟩, ⟨3, false, some (.obj 70), none, none, [], false, by decide⟩],
     sig := { pos := [⟨2, none⟩, ⟨3, some (.obj 50)⟩], varArgs := false, kwOnly := [] }, strict := true, ignoreInput := false, req := .noContext }
 
 -- the full chain in order: ((100·8+1)·8+2)·8+3; the Parameter default beats the signature default
@@ -2811,7 +3098,7 @@ theorem body_sees_only_chain_outputs_full_proved : body_sees_only_chain_outputs_
 /-- `@validate(Parameter('a', validators=[V1]), Parameter('b', validators=[V2], required=False, default=<obj 70>), strict=…)
     def f(a, *<var>)` (names: a = 2, b = 3, rest = 10); `tupleOf` (the tuple object bind_partial builds) is never consulted -/
 def exRest (strict : Bool) (var : Name) : Cfg :=
-  { ps := [⟨2, true, none, none, none, [exV 1 []], false⟩, ⟨3, false, some (.obj 70), none, none, [exV 2 []], false⟩],
+  { ps := [⟨2, true, none, none, none, [exV 1 []], false, by decide⟩, ⟨3, false, some (.obj 70), none, none, [exV 2 []], false, by decide⟩],
     sig := { pos := [⟨2, none⟩], varArgs := true, kwOnly := [], varName := var, tupleOf := fun _ => .obj 55 },
     strict := strict, ignoreInput := false, req := .noContext }
 
@@ -2824,8 +3111,8 @@ example : runValidate (exRest false 10) false .args [.obj 100, .obj 101, .obj 10
 example : runValidate (exRest true 10) false .args [.obj 100, .obj 101, .obj 102] []
     = .ok ⟨[(2, .obj 801)], [.obj 810]⟩ := by rfl
 -- a rejected surplus positional blocks the body
-example : runValidate { exRest false 10 with ps := [⟨2, true, none, none, none, [exV 1 []], false⟩,
-      ⟨3, false, some (.obj 70), none, none, [exV 2 [101]], false⟩] } false .args [.obj 100, .obj 101] []
+example : runValidate { exRest false 10 with ps := [⟨2, true, none, none, none, [exV 1 []], false, by decide⟩,
+      ⟨3, false, some (.obj 70), none, none, [exV 2 [101]], false, by decide⟩] } false .args [.obj 100, .obj 101] []
     = .error (.parameter 3 (.validator 0)) := by rfl
 
 /-- the generated test of the `zip` branch is exactly "k is the VAR_POSITIONAL parameter of the signature" -/
@@ -2886,7 +3173,7 @@ theorem no_zip_without_var_positional (sig : Sig) (args : List PV) (b : Bound) (
 -- `def f(args, x)` (names: args = 1, x = 2), Parameters declared in the order x, args: positional, keyword and mixed
 -- calls bind alike
 def exArgsName : Cfg :=
-  { ps := [⟨2, true, none, none, none, [exV 1 []], false⟩, ⟨1, true, none, none, none, [exV 2 []], false⟩],
+  { ps := [⟨2, true, none, none, none, [exV 1 []], false, by decide⟩, ⟨1, true, none, none, none, [exV 2 []], false, by decide⟩],
     sig := { pos := [⟨1, none⟩, ⟨2, none⟩], varArgs := false, kwOnly := [] }, strict := true, ignoreInput := false, req := .noContext }
 example : runValidate exArgsName false .args [.obj 100, .obj 101] [] = .ok ⟨[(1, .obj 802), (2, .obj 809)], []⟩ := by rfl
 example : runValidate exArgsName false .args [] [(2, .obj 101), (1, .obj 100)] = .ok ⟨[(1, .obj 802), (2, .obj 809)], []⟩ := by rfl
@@ -2909,7 +3196,7 @@ def StepW.erase (w0 : σ) (s : StepW σ) : Step := fun v => (s v w0).1
 def VParamW.WorldIndependent (p : VParamW σ) : Prop :=
   (∀ s, p.conv = some s → StepW.WorldIndependent s) ∧ ∀ s ∈ p.validators, StepW.WorldIndependent s
 def VParamW.erase (w0 : σ) (p : VParamW σ) : VParam :=
-  ⟨p.name, p.requiredArg, p.dflt, p.ext, p.conv.map (StepW.erase w0), p.validators.map (StepW.erase w0), p.flaskJson⟩
+  ⟨p.name, p.requiredArg, p.dflt, p.ext, p.conv.map (StepW.erase w0), p.validators.map (StepW.erase w0), p.flaskJson, p.nameNonEmpty⟩
 
 def CfgW.WorldIndependent (c : CfgW σ) : Prop := ∀ p ∈ c.ps, p.WorldIndependent
 /-- the decorated function with the effects of its steps forgotten -/
@@ -3248,8 +3535,8 @@ abbrev Log := List (Except VExc Binding)
 /-- `@validate(Parameter('x', validators=[V1]), Parameter('y', validators=[V2]), return_as=KWARGS_WITH_NONE)
     def f(x, y=<obj 50>)` (names: x = 2, y = 3; `y` is required) — steps without effects -/
 def exPlainW : CfgW Log :=
-  { ps := [⟨2, true, none, none, none, [fun v w => (exV 1 [] v, w)], false⟩,
-           ⟨3, true, none, none, none, [fun v w => (exV 2 [] v, w)], false⟩],
+  { ps := [⟨2, true, none, none, none, [fun v w => (exV 1 [] v, w)], false, by decide⟩,
+           ⟨3, true, none, none, none, [fun v w => (exV 2 [] v, w)], false, by decide⟩],
     sig := { pos := [⟨2, none⟩, ⟨3, some (.obj 50)⟩], varArgs := false, kwOnly := [] },
     strict := true, ignoreInput := false, req := .noContext }
 
@@ -3260,8 +3547,8 @@ def exReentrantW : CfgW Log :=
     ps := [⟨2, true, none, none, none,
              [fun v w => (exV 1 [] v,
                 let r := runValidateW exPlainW (fun _ w => w) false .kwWithNone [] [(2, .obj 200), (3, .obj 300)] w
-                r.1 :: r.2)], false⟩,
-           ⟨3, true, none, none, none, [fun v w => (exV 2 [] v, w)], false⟩] }
+                r.1 :: r.2)], false, by decide⟩,
+           ⟨3, true, none, none, none, [fun v w => (exV 2 [] v, w)], false, by decide⟩] }
 
 -- the outer call `f(x=100)` omits the required `y`: ParameterException(y), the body does not run — although the inner call,
 -- which ran to completion in between (see the log), supplied a `y`
